@@ -16,7 +16,7 @@ LEVEL = "exploration"
 RULE = (
     "Stage 'exhaustive-small': for images N in {1,2,5} x P in {1,4} (quick: (1,1),(2,3),(4,2),(1,2)), both sample types and every "
     "records_per_chunk 1..N+1, every int in [-n,n-1], every slice(a,b,s) with a,b in "
-    "{None,-n-1..n+1}, s in {None,+-1,+-2,+-3,+-(n+1)}, every index array of length <=2 and three "
+    "{None,-n-1..n+1}, s in {None,+-1,+-2,+-3,+-(n+1)}, every index array of length <=2, every non-decreasing index array of length 3 and 4 and three "
     "boolean masks on one axis, crossed with a covering set on the other axis (quick) or the full "
     "set (thorough). Stage 'random': Hypothesis chains of 1-3 operations (isel outer / vectorised, "
     ".sel on row labels, [] tuples) on larger images. Oracle: the same operation on an in-memory "
@@ -252,6 +252,11 @@ def axis_indexers(n):
         out.append({"t": "arr", "v": [a]})
     for a, b in itertools.product(vals, vals):
         out.append({"t": "arr", "v": [a, b]})
+    # every non-decreasing index array of length 3 and 4 (repeats and gaps: what a backend that
+    # supports outer indexing is handed unchanged)
+    for k in (3, 4):
+        for combo in itertools.combinations_with_replacement(range(n), k):
+            out.append({"t": "arr", "v": list(combo)})
     out.append({"t": "mask", "v": [True] * n})
     out.append({"t": "mask", "v": [False] * n})
     out.append({"t": "mask", "v": [i % 2 == 0 for i in range(n)]})
@@ -314,6 +319,8 @@ def st_index(n):
         st.builds(lambda a, b, s: {"t": "slice", "v": [a, b, s]}, bound, bound, step),
         st.builds(lambda v: {"t": "arr", "v": v}, st.lists(ints, min_size=0, max_size=6)),
         st.builds(lambda v: {"t": "list", "v": v}, st.lists(ints, min_size=1, max_size=4)),
+        # sorted with repeats and gaps
+        st.builds(lambda v: {"t": "arr", "v": sorted(v)}, st.lists(st.integers(0, max(n - 1, 0)), min_size=2, max_size=8)),
         st.builds(lambda v: {"t": "mask", "v": v}, st.lists(st.booleans(), min_size=n, max_size=n)),
         st.just({"t": "all"}),
     )
